@@ -33,6 +33,10 @@ def gen(rng, k):
         return gen_move(rng)
     aac = rng.random() < 0.5
     pref = rng.choice(gen_ca.VETO if rng.random() < 0.6 else gen_ca.IMMEDIATE)
+    if aac and pref >= 252:
+        # room left below 254 for every possible loss (two at most here), as in C04's quantifier: an arbitrary-address-capable
+        # CA that runs off the end of the range claims 254, 255, ... (the library's own TODO "check the address range")
+        pref = 248 + (pref - 252)
     bypass = rng.random() < 0.15
     nameX = gen_ca.mk_name(rng, aac) | (1 << 40)
     stacks = [dict(dll='j1939-21', max_cmdt=3, subs=[], cas=[dict(name=nameX, addr=pref, bypass=bypass, subs=[1], req=[2])])]
